@@ -1631,10 +1631,206 @@ def s_mock_exact(E, tier):
                'overlap', key='given-and-mocked')
 
 
+def s_failed_publish(E, tier):
+    """C05: a result that cannot be stored completely is not published: the request fails, nothing is visible, a later
+    request computes again (data classes that publish atomically: lazily generated data, directory data)"""
+    from taskchain import Config, Task
+    import typing
+    runs = []
+
+    class BadGen(Task):
+        def run(self) -> typing.Generator:
+            runs.append('bad_gen')
+            yield {'ok': 1}
+            yield {'bad': {1, 2}}          # a set cannot be serialised
+            yield {'ok': 2}
+    BadGen.Meta = type('Meta', (), {'data_class': __import__('taskchain').data.GeneratedDataLazy})
+    d = E.dir()
+    E.tried += 1
+    mk = lambda: Config(d / 'data', name='c', data={'tasks': [BadGen]}).chain()
+    with quiet():
+        ch = mk()
+        try:
+            list(ch['bad_gen'].value)
+            failed = False
+        except Exception:
+            failed = True
+        later = mk()
+        visible = later['bad_gen'].has_data
+        n_before = len(runs)
+        try:
+            list(later['bad_gen'].value)
+        except Exception:
+            pass
+    if not failed or visible:
+        E.viol('C05', 'complete_or_absent', f'a generated result with a record that cannot be serialised: request failed = {failed}, '
+               f'a later chain sees has_data = {visible} (an incomplete result was published)', 'set in a record', key='unserialisable-record-published')
+    elif len(runs) == n_before:
+        E.viol('C05', 'complete_or_absent', 'after a failed store the later request did not compute again', 'set in a record', key='no-recompute-after-failed-store')
+
+
+def s_cycles_and_wildcards(E, tier):
+    """C08: a dependency cycle never yields a chain (either mode, wherever the cycle sits); a wildcard declaration declares the
+    tasks defined in that module only"""
+    from taskchain import Config, Task
+
+    class CyA(Task):
+        class Meta:
+            input_tasks = ['cy_b']
+
+        def run(self, cy_b) -> int:
+            return 1
+
+    class CyB(Task):
+        class Meta:
+            input_tasks = ['cy_a']
+
+        def run(self, cy_a) -> int:
+            return 1
+
+    class CyTail(Task):
+        class Meta:
+            input_tasks = [CyA]
+
+        def run(self, cy_a) -> int:
+            return 1
+
+    class Seed(Task):
+        def run(self) -> int:
+            return 0
+    for pmode in (False, True):
+        for tasks in ([CyA, CyB], [CyA, CyB, CyTail], [Seed, CyA, CyB, CyTail]):
+            E.tried += 1
+            with quiet():
+                try:
+                    Config(E.dir(), name='cyc', data={'tasks': tasks}).chain(parameter_mode=pmode)
+                    built = True
+                except (Exception, RecursionError):
+                    built = False
+            if built:
+                E.viol('C08', 'acyclic', f'tasks {[t.__name__ for t in tasks]} with cy_a <-> cy_b (parameter_mode={pmode}): a chain was built from a cyclic declaration',
+                       ([t.__name__ for t in tasks], pmode), key='cycle-accepted')
+    d = E.dir()
+    E.tried += 2
+    with quiet():
+        ch = Config(d / 'data', E.write(d, 'w', {'tasks': ['contracts.pipelines.wild.*', f'{LIB}.Src'], 'n': 1})).chain()
+        names = sorted(ch.tasks)
+        try:
+            Config(d / 'data', E.write(d, 'w2', {'tasks': ['contracts.pipelines.wild.*'], 'n': 1})).chain()
+            alone = 'built'
+        except Exception:
+            alone = 'error'
+    if names != ['data:src', 'peek']:
+        E.viol('C08', 'tasks_exact', f"'contracts.pipelines.wild.*' + Src declares {names}; the module defines Peek only (Src is merely imported there)", names, key='wildcard-imports')
+    if alone != 'error':
+        E.viol('C08', 'missing_input', "a config declaring only 'contracts.pipelines.wild.*' (Peek needs src, declared nowhere) built a chain", 'wild.*', key='wildcard-imported-input')
+
+
+def s_multiconfig_isolation(E, tier):
+    """C09: configs built from one part of a multi-config file share nothing: per-namespace context values stay in their
+    namespace, and a later context-free config of the same part sees the file values"""
+    from taskchain import Config
+    d = E.dir()
+    E.tried += 1
+    f = E.write(d, 'multi', {'configs': {'point': {'tasks': [f'{LIB}.NsScore'], 'x': 1, 'y': 2, 'opts': {'k': [1]}},
+                                        'main': {'main_part': True, 'uses': ['#point as left', '#point as right']}}})
+    with quiet():
+        ch = Config(d / 'data', f, context={'for_namespaces': {'left': {'x': 10}, 'right': {'y': 20}}}).chain()
+        got = (ch['left::ns_score'].value, ch['right::ns_score'].value)
+        plain = Config(d / 'data2', f, part='point').chain()['ns_score'].value
+        again = Config(d / 'data3', f).chain()
+        got2 = (again['left::ns_score'].value, again['right::ns_score'].value)
+    if got != (10002, 1020) or plain != 1002 or got2 != (1002, 1002):
+        E.viol('C09', 'no_sharing', f'one part of a multi-config file mounted as left / right with per-namespace context: values {got} (expected (10002, 1020)); '
+               f'a later context-free config of the part: {plain} (1002); a later context-free tree: {got2} ((1002, 1002))', 'multi#point', key='multi-config-part-shared')
+
+
+def s_input_names(E, tier):
+    """C10: a dependant's inputs are addressed by the same rule as a chain's tasks - whatever their number and order"""
+    from taskchain import Config, Task
+
+    def mk(name, group):
+        class T(Task):
+            Meta = type('Meta', (), {'name': name, 'task_group': group})
+
+            def run(self) -> str:
+                return self.fullname
+        T.__name__ = f'I_{group}_{name}'
+        return T
+    groups = ['x', 'y', 'z', 'u']
+    for n in (1, 2, 3, 4):
+        for order in (groups[:n], list(reversed(groups[:n]))):
+            classes = [mk('a', g) for g in order]
+
+            class Consumer(Task):
+                Meta = type('Meta', (), {'name': 'consumer', 'input_tasks': [f'{g}:a' for g in order]})
+
+                def run(self) -> int:
+                    return 0
+            E.tried += 1
+            with quiet():
+                ch = Config(E.dir(), name='c', data={'tasks': classes + [Consumer]}).chain()
+                it = ch['consumer'].input_tasks
+                try:
+                    got = it['a'].fullname
+                except KeyError:
+                    got = None
+                inn = 'a' in it
+            want = f'{order[0]}:a' if n == 1 else None
+            if got != want or inn != (want is not None):
+                E.viol('C10', 'access', f"inputs {[f'{g}:a' for g in order]}: input_tasks['a'] gives {got}, ('a' in input_tasks) = {inn}; "
+                       + ('the unique match is ' + want if want else 'the short name is ambiguous'), order, key='input-tasks-short-name')
+    # a top-level dependant's unqualified reference resolves among the top-level tasks
+    GA, HA = mk('a', 'g'), mk('a', 'h')
+
+    class TopConsumer(Task):
+        Meta = type('Meta', (), {'name': 'top_consumer', 'input_tasks': ['a']})
+
+        def run(self, a) -> str:
+            return a
+    E.tried += 1
+    with quiet():
+        try:
+            base_ = E.dir()
+            sub = Config(base_, name='sub', namespace='n', data={'tasks': [HA]})
+            ch = Config(base_, name='top', data={'tasks': [GA, TopConsumer], 'uses': [sub]}).chain()
+            wired = sorted(t.fullname for t in ch['top_consumer'].input_tasks.values())
+        except Exception as e:
+            wired = f'{type(e).__name__}: {e}'
+    if wired != ['g:a']:
+        E.viol('C10', 'access', f"top-level task with input 'a', tasks g:a (top level) and n::h:a (mounted): wired to {wired}; inside its own (empty) namespace the "
+               'reference identifies g:a uniquely', 'top-level reference', key='top-level-reference')
+
+
+def s_golden_objects(E, tier):
+    """C12: frozen release-1.4.0 texts of parameter objects and of the group level of the layout (golden vectors)"""
+    from taskchain import Config
+    d = E.dir()
+    cases = [({'scale': {'b': 1, 'a': 2}}, "w=Weights(scale={'b': 1, 'a': 2})"),
+             ({'scale': "it's"}, 'w=Weights(scale="it\'s")'),
+             ({'scale': '\\w+\n'}, "w=Weights(scale='\\\\w+\\n')"),
+             ({'scale': [1, {'z': None, 'y': 'q'}]}, "w=Weights(scale=[1, {'z': None, 'y': 'q'}])")]
+    for kwargs, text in cases:
+        E.tried += 1
+        with quiet():
+            ch = Config(d / 'data', E.write(d, f'g{E.n}', cfg(n=1, w={'class': f'{LIB}.Weights', 'kwargs': kwargs}))).chain()
+            got = ch['mem'].params.repr
+        if got != text:
+            E.viol('C12', 'object_text', f'parameter object Weights(**{kwargs!r}): persisted text {got!r}, release 1.4.0 text {text!r}', kwargs, key='parameter-object-text')
+    E.tried += 1
+    with quiet():
+        ch = Config(d / 'data', E.write(d, 'emb', {'tasks': [f'{LIB}.Emb', f'{LIB}.UsesEmb']})).chain()
+        names = sorted(ch.tasks)
+        p = str(Path(ch['lib:emb'].data_path).relative_to(d / 'data')) if 'lib:emb' in ch.tasks else None
+    if names != ['lib:emb', 'uses_emb'] or not (p or '').startswith('lib/emb/'):
+        E.viol('C12', 'layout_group', f'a ModuleTask with Meta.task_group: tasks {names}, result path {p}; release 1.4.0 uses the module name (lib:emb, lib/emb/<key>.json)',
+               'Emb', key='module-task-group')
+
+
 SCENARIOS = {
     'C01': [s_values_and_history, s_namespaces, s_ns_prefix, s_none_param], 'C02': [s_same_location, s_different_location, s_process_independent, s_default_not_persisted, s_same_location_more], 'C03': [s_different_location, s_injective],
-    'C04': [s_values_and_history, s_lazy_inputs, s_shared_registry, s_late_upstream], 'C07': [s_forcing, s_delete_exact, s_force_replaces, s_multichain], 'C08': [s_graph, s_namespaces, s_pattern_exact, s_query_history], 'C09': [s_contexts, s_namespaces, s_values_and_history, s_ns_prefix, s_no_shared_values],
-    'C10': [s_namespaces, s_name_access], 'C11': [s_contexts, s_ctx_uses_string, s_global_vars_object], 'C13': [s_multichain, s_multichain_memory, s_multichain_mounts], 'C18': [s_run_records, s_log_isolation], 'C19': [s_test_helpers, s_mock_exact], 'C20': [s_migration],
+    'C04': [s_values_and_history, s_lazy_inputs, s_shared_registry, s_late_upstream], 'C05': [s_failed_publish], 'C12': [s_golden_objects], 'C07': [s_forcing, s_delete_exact, s_force_replaces, s_multichain], 'C08': [s_graph, s_namespaces, s_pattern_exact, s_query_history, s_cycles_and_wildcards], 'C09': [s_contexts, s_namespaces, s_values_and_history, s_ns_prefix, s_no_shared_values, s_multiconfig_isolation],
+    'C10': [s_namespaces, s_name_access, s_input_names], 'C11': [s_contexts, s_ctx_uses_string, s_global_vars_object], 'C13': [s_multichain, s_multichain_memory, s_multichain_mounts], 'C18': [s_run_records, s_log_isolation], 'C19': [s_test_helpers, s_mock_exact], 'C20': [s_migration],
 }
 
 
